@@ -15,6 +15,7 @@ THEOREMS = [
     "Ural.Props.C05.normalize_host_absent",
     "Ural.Props.C05.hostDel_no_amp",
     "Ural.Props.C05.normalize_port",
+    "Ural.Props.C05.resolvedPath_eq",
     "Ural.Props.C05.normalize_path_deletion",
     "Ural.Props.C05.normalize_path_sublist",
     "Ural.Props.C05.normalize_query_sublist",
@@ -68,7 +69,7 @@ RULE = (
     "Non-trivial = a parseable URL on which the output differs from the input; distinct = distinct (url, options)."
 )
 EXHAUSTIVE = {
-    "quick": "all 2^9 x 3 x 2 (quoted) option settings on 6 bases; every option switched alone on every corpus / unparseable / redirect / platform URL; every host of <= 2 labels over the 13-label irrelevant/look-alike alphabet x 4 bases x both regex variants through the subdomain scanner; every irrelevant/plain item x amp x 5 hosts x 2 filters through should_strip_query_item; every permutation of <= 3 of 8 items through the sort",
+    "quick": "all 2^9 x 3 x 2 (quoted) option settings on 5 bases; every option switched alone on every corpus / unparseable / redirect / platform URL; every host of <= 2 labels over the 13-label irrelevant/look-alike alphabet x 4 bases x both regex variants through the subdomain scanner; every irrelevant/plain item x amp x 5 hosts x 2 filters through should_strip_query_item; every permutation of <= 3 of 8 items through the sort",
     "thorough": "the same with 40 bases, <= 3 labels, permutations of <= 4 items",
 }
 TRUSTED = [
@@ -156,7 +157,7 @@ def cases(rng, tier):
         yield c
     # the full 2^9 x 3 x quoted grid on a sample of bases
     grid = list(nc.full_grid())
-    nfull = 6 if tier == "quick" else 40
+    nfull = 5 if tier == "quick" else 40
     fixed = ["HTTP://User:Pw@WWW.M.Example.com:8080/a/../B/index.html?utm_source=x&b=2&a=1&amp;ref=fb#top",
              "amp-www2.a.com:80/x/amp/?s=12&z=%41&y#/route"]
     for i in range(nfull):
@@ -380,8 +381,7 @@ def oracle(case):
     o = nc.full_opts(case["opts"])
     tag = "normalize_url(%r, %r)" % (url, case["opts"])
     try:
-        out_t = normalize_url(url, unsplit=False, **o)
-        out_s = normalize_url(url, **o)
+        out_t, out_s = nc.real_both(url, o)
     except Exception as e:  # noqa
         return "%s raised %s: %s" % (tag, type(e).__name__, e)
     # the (redirection-resolved, cleaned) input, parsed with the stdlib
@@ -495,7 +495,7 @@ def nontrivial(case):
 
     url = _url(case)
     try:
-        out = normalize_url(url, **nc.full_opts(case["opts"]))
+        out = nc.real_both(url, case["opts"])[1]
     except Exception:  # noqa
         return lib.jd([url, case["opts"]])
     if out == url:
